@@ -9,10 +9,39 @@ package main
 //     the real state: an address other than the recovered signer is lowered only in the three named exceptions.
 // The machinery lives in internal/dtx so that the C04 / C06 channels can reuse it.
 import (
+	"encoding/json"
+	"os"
+
 	"verifharness/internal/dtx"
 	"verifharness/internal/hx"
 )
 
 func init() {
-	hx.Register("C05", func(c *hx.Ctx) error { return dtx.Run(c, "C05") })
+	hx.Register("C05", func(c *hx.Ctx) error {
+		if c.Replay != "" { // a replay of the pipeline part carries {"pipeline": true, ...}
+			if b, err := os.ReadFile(c.Replay); err == nil {
+				var w struct {
+					Replay *pipeCase `json:"replay"`
+				}
+				if json.Unmarshal(b, &w) == nil && w.Replay != nil && w.Replay.Pipeline {
+					fs, ev, err := runPipeCase(w.Replay)
+					if err != nil {
+						return err
+					}
+					c.Rep.Evaluations = ev
+					c.Distinct("pipeline-replay")
+					for _, f := range fs {
+						c.Fail(f.Sig, f.Detail, w.Replay)
+					}
+					return nil
+				}
+			}
+			return dtx.Run(c, "C05")
+		}
+		// the pipeline part first: its few findings must not be crowded out by the report's failure cap
+		if err := runPipeline(c); err != nil {
+			return err
+		}
+		return dtx.Run(c, "C05")
+	})
 }
